@@ -128,8 +128,9 @@ AbsAfter(s, e) ==
         c == IF e.p \in DOMAIN s.cur THEN s.cur[e.p] ELSE <<>>
     IN IF ~e.ok \/ ~Has(c, "key") \/ ~Has(c, "val") \/ c.key \notin present THEN m0
        ELSE IF e.api \in {"set", "set_tf"} \/ (e.api = "gou" /\ Has(c, "judge") /\ c.judge = "replace") THEN Put(m0, c.key, c.val)
-       \* (ensure / gou on a key held by a read-only level promotes that level's copy, not c.val: left unconstrained)
-       ELSE IF e.api \in {"ensure", "gou"} /\ Has(s.cfg, "rokeys") /\ c.key \in SeqSet(s.cfg.rokeys) THEN m0
+       \* (ensure / gou on a key held by a read-only level promotes that level's copy, not c.val: present, value "?" = any)
+       ELSE IF e.api \in {"ensure", "gou"} /\ Has(s.cfg, "rokeys") /\ c.key \in SeqSet(s.cfg.rokeys) THEN
+            (IF c.key \in DOMAIN m0 THEN m0 ELSE Put(m0, c.key, "?"))
        ELSE IF e.api \in {"put", "put_tf", "ensure", "gou"} /\ c.key \notin DOMAIN m0 THEN Put(m0, c.key, c.val)
        ELSE m0
 
